@@ -2,5 +2,9 @@
   C06 — operand values are encoded exactly or rejected.  Per-CPU theorems (RV32I, namespace NakenVerif.Riscv):
     rv32i_encode_rejects_unfit, rv32i_encode_injective_mod_field, rv32i_encode_injective_imm12,
     rv32i_encode_exact_field
+  MSP430 16-bit core (NakenVerif.Msp430.AsmRange): msp430_encode_rejects_unfit (every mnemonic and alias),
+  msp430_encode_injective_mod_field, msp430_encode_injective_imm16, msp430_encode_exact_field, msp430_jump_range,
+  table_alias_rows, table_jump_rows
 -/
 import NakenVerif.Riscv.Props
+import NakenVerif.Msp430.Fixpoint
